@@ -27,6 +27,10 @@ func main() {
 	case "check":
 		checkCmd(os.Args[2:])
 	default:
+		if f, ok := extraCmds[os.Args[1]]; ok {
+			f(os.Args[2:])
+			return
+		}
 		fmt.Println("unknown command", os.Args[1])
 		os.Exit(2)
 	}
@@ -122,3 +126,52 @@ func sweepCmd(args []string) {
 		len(results), errs, tot, ok, failed, unk, time.Since(t0).Seconds())
 }
 
+
+func init() { extraCmds["contracts"] = contractsCmd }
+
+var extraCmds = map[string]func([]string){}
+
+// contractsCmd: development driver — verify the functions under contract
+// whose name matches.
+func contractsCmd(args []string) {
+	fs := flag.NewFlagSet("contracts", flag.ExitOnError)
+	match := fs.String("match", ".", "regexp on function names")
+	dump := fs.String("dump", "", "dump failed scripts")
+	fs.Parse(args)
+	p, err := vc.Load("/repo", vc.ModPath, vc.ModPath+"/pkg/...")
+	if err != nil {
+		fmt.Println(err)
+		os.Exit(2)
+	}
+	cs, files, err := vc.LoadContracts("/repo")
+	if err != nil {
+		fmt.Println("contracts:", err)
+		os.Exit(2)
+	}
+	fmt.Println("contract files:", files)
+	re := regexp.MustCompile(*match)
+	for _, name := range cs.Order {
+		if !re.MatchString(name) {
+			continue
+		}
+		fn := p.Funcs[name]
+		if fn == nil {
+			fmt.Println("NO SUCH FUNCTION", name)
+			continue
+		}
+		opt := vc.Options{Safety: false, InlineDepth: 2, InlineSize: 80, Contracts: cs}
+		so := &vc.SolveOpts{TimeoutMs: 5000, RaceTimeout: 20 * time.Second, Models: true}
+		r := vc.VerifyFunc(p, fn, opt, so)
+		if r.Err != "" {
+			fmt.Println("ERR", name, r.Err)
+			continue
+		}
+		for _, o := range r.Obls {
+			fmt.Printf("%-10s %-8s %6.2fs %s %s\n", o.Status, o.Solver, o.Secs, o.Name, strings.ReplaceAll(o.Model, "\n", " "))
+			if *dump != "" && o.Status != "discharged" {
+				vc.DumpScript(*dump, o.Name, vc.Standalone(r.Lines, o, true, ""))
+			}
+		}
+		fmt.Println("  dropped:", r.Dropped, "kept:", r.Kept, "notes:", r.Notes)
+	}
+}
